@@ -32,4 +32,140 @@ def pathUnescape : Bytes → Option Bytes
 /-- tree.go `Match`: `if err == nil { params[k] = unescaped }` -/
 def pathUnescapeOrRaw (b : Bytes) : Bytes := (pathUnescape b).getD b
 
+
+/-! ## `url.QueryEscape` / `url.QueryUnescape` (net/url, mode `encodeQueryComponent`) -/
+
+def space : UInt8 := 32      -- ' '
+def plus : UInt8 := 43       -- '+'
+def dquote : UInt8 := 34     -- '"'
+def comma : UInt8 := 44      -- ','
+def semicolon : UInt8 := 59  -- ';'
+def backslash : UInt8 := 92  -- '\\'
+def eqSign : UInt8 := 61     -- '='
+def amp : UInt8 := 38        -- '&'
+
+/-- `shouldEscape(c, encodeQueryComponent)`: only `A-Za-z0-9` and `- _ . ~` stay; every reserved
+    byte (`$ & + , / : ; = ? @`) and everything else is escaped. -/
+def shouldEscapeQuery (c : UInt8) : Bool :=
+  !((97 ≤ c && c ≤ 122) || (65 ≤ c && c ≤ 90) || (48 ≤ c && c ≤ 57)
+    || c == 45 || c == 95 || c == 46 || c == 126)
+
+/-- `upperhex[n]` = `"0123456789ABCDEF"[n]` (used with `n < 16`) -/
+def upperHex (n : UInt8) : UInt8 := if n < 10 then 48 + n else 55 + n
+
+/-- `url.QueryEscape`.  Go's `escape` first counts, returns `s` itself when nothing needs
+    escaping and has a copy-and-replace path when only blanks occur; all three paths produce
+    the bytes of this one loop (`' '` → `'+'`, `shouldEscape` → `%XX` upper case, else the byte). -/
+def queryEscape : Bytes → Bytes
+  | [] => []
+  | c :: rest =>
+    if c = space then plus :: queryEscape rest
+    else if shouldEscapeQuery c then pct :: upperHex (c >>> 4) :: upperHex (c &&& 15) :: queryEscape rest
+    else c :: queryEscape rest
+
+/-- `url.QueryUnescape`: `none` = `EscapeError`.  Go validates in a first pass (a `%` needs two hex
+    digits after it, a valid `%XX` is skipped as a unit) and decodes in a second; one pass in
+    `Option` fails on exactly the same inputs and decodes the same bytes. `+` becomes a blank. -/
+def queryUnescape : Bytes → Option Bytes
+  | [] => some []
+  | c :: rest =>
+    if c = pct then
+      match rest with
+      | a :: b :: rest' =>
+        if isHex a && isHex b then (queryUnescape rest').map (fun r => (unhex a <<< 4 ||| unhex b) :: r)
+        else none
+      | _ => none
+    else if c = plus then (queryUnescape rest).map (space :: ·)
+    else (queryUnescape rest).map (c :: ·)
+
+/-! ## small `strings` helpers used by the query and cookie parsers -/
+
+/-- `strings.Split(s, string(sep))` for a one-byte separator — always at least one element.
+    Iterating `strings.Cut(rest, sep)` until the rest is empty visits the same pieces
+    (plus possibly a final empty one, which every caller skips). -/
+def splitOn (sep : UInt8) : Bytes → List Bytes
+  | [] => [[]]
+  | c :: cs =>
+    if c = sep then [] :: splitOn sep cs
+    else match splitOn sep cs with
+      | [] => [[c]]          -- unreachable
+      | s :: ss => (c :: s) :: ss
+
+/-- `before, after, _ := strings.Cut(s, string(sep))` (no separator: `(s, "")`) -/
+def cut (sep : UInt8) : Bytes → Bytes × Bytes
+  | [] => ([], [])
+  | c :: cs => if c = sep then ([], cs) else let (a, b) := cut sep cs; (c :: a, b)
+
+/-- `textproto.isASCIISpace` : blank, tab, LF, CR -/
+def isAsciiSpace (b : UInt8) : Bool := b == 32 || b == 9 || b == 10 || b == 13
+
+/-- `textproto.TrimString` -/
+def trimString (s : Bytes) : Bytes :=
+  ((s.dropWhile isAsciiSpace).reverse.dropWhile isAsciiSpace).reverse
+
+/-! ## net/http cookie values (cookie.go) -/
+
+/-- `validCookieValueByte` -/
+def validCookieValueByte (b : UInt8) : Bool :=
+  0x20 ≤ b && b < 0x7f && b != dquote && b != semicolon && b != backslash
+
+/-- `sanitizeCookieValue(v, quoted)`: `sanitizeOrWarn` drops every invalid byte; a non-empty
+    result is wrapped in double quotes when it contains a blank or a comma (or `quoted`). -/
+def sanitizeCookieValue (v : Bytes) (quoted : Bool) : Bytes :=
+  let v := v.filter validCookieValueByte
+  if v.isEmpty then v
+  else if v.any (fun b => b == space || b == comma) || quoted then dquote :: (v ++ [dquote])
+  else v
+
+/-- `httpguts.IsTokenRune` restricted to bytes (a non-ASCII rune is never a token rune):
+    ``! # $ % & ' * + - . 0-9 A-Z ^ _ ` a-z | ~`` -/
+def isTokenByte (c : UInt8) : Bool :=
+  (97 ≤ c && c ≤ 122) || (65 ≤ c && c ≤ 90) || (48 ≤ c && c ≤ 57)
+  || c == 33 || (35 ≤ c && c ≤ 39) || c == 42 || c == 43 || c == 45 || c == 46
+  || c == 94 || c == 95 || c == 96 || c == 124 || c == 126
+
+/-- `isCookieNameValid` -/
+def cookieNameValid (name : Bytes) : Bool := !name.isEmpty && name.all isTokenByte
+
+/-- `(&http.Cookie{Name: name, Value: value}).String()` — no attributes set, so the text is
+    `name=value` with the value sanitised; an invalid name yields the empty string. -/
+def cookieString (name value : Bytes) : Bytes :=
+  if cookieNameValid name then name ++ eqSign :: sanitizeCookieValue value false else []
+
+/-- `parseCookieValue(raw, allowDoubleQuote)`: `none` = `ok == false`; the flag is `quoted`. -/
+def parseCookieValue (raw : Bytes) (allowDoubleQuote : Bool) : Option (Bytes × Bool) :=
+  let stripped : Option Bytes :=
+    match raw with
+    | q :: rest =>
+      -- len(raw) > 1 && raw[0] == '"' && raw[len(raw)-1] == '"'
+      if allowDoubleQuote && q == dquote && !rest.isEmpty && rest.getLast? == some dquote
+      then some rest.dropLast else none
+    | [] => none
+  let (body, quoted) := match stripped with
+    | some b => (b, true)
+    | none => (raw, false)
+  if body.all validCookieValueByte then some (body, quoted) else none
+
+/-- One line of `readCookies(h, filter)`: the `name=value` parts between `;`, each trimmed, parts
+    with an invalid name, another name than `filter` (when non-empty) or an invalid value skipped. -/
+def readCookieLine (line filter : Bytes) : List (Bytes × Bytes) :=
+  (splitOn semicolon (trimString line)).filterMap fun part =>
+    let part := trimString part
+    if part.isEmpty then none else
+    let (name, val) := cut eqSign part
+    let name := trimString name
+    if !cookieNameValid name then none
+    else if !filter.isEmpty && filter != name then none
+    else match parseCookieValue val true with
+      | some (v, _) => some (name, v)
+      | none => none
+
+/-- `readCookies(h, filter)` over the request's `Cookie` header lines -/
+def readCookies (lines : List Bytes) (filter : Bytes) : List (Bytes × Bytes) :=
+  lines.flatMap (readCookieLine · filter)
+
+/-- `(*http.Request).Cookie(name)`: the first cookie of that name, `none` = `ErrNoCookie` -/
+def requestCookie (lines : List Bytes) (name : Bytes) : Option Bytes :=
+  if name.isEmpty then none else ((readCookies lines name).head?).map (·.2)
+
 end Flamego
